@@ -172,9 +172,9 @@ func genSysHistory(rng *proto.Rng) sysIn {
 				needTimeout = true
 			}
 			if rng.Chance(1, 7) {
-				b := proto.Pick(rng, []string{"finalizer", "finalizer-gone"})
+				b := proto.Pick(rng, []string{"finalizer", "finalizer-gone", "replaced"})
 				run.Del[k] = b
-				if b == "finalizer" {
+				if b == "finalizer" || b == "replaced" {
 					needTimeout = true
 				}
 			} else if r > 0 && in.Runs[r-1].Del[k] == "finalizer" && rng.Chance(2, 3) {
@@ -315,6 +315,11 @@ func sysHandWritten() []sysIn {
 		// a DELETE answered 409 Conflict (the object was replaced under the run's feet) is a failed delete: what it depends on stays
 		{Pre: pre, Runs: []sysRun{{Kind: "apply", Objs: []sysObj{soA, soB, soC}}, {Kind: "destroy", FailMut: []int{0}, FailCode: 4091},
 			{Kind: "apply", Objs: []sysObj{soA}, FailMut: []int{1}, FailCode: 4091}, {Kind: "destroy", FailMut: []int{1}, FailCode: 4091}}},
+		// a delete is rejected because the object was replaced under the run's feet (409 Conflict), and the watcher reports the new
+		// object: what the replaced object depends on stays
+		{Pre: pre, Runs: []sysRun{{Kind: "apply", Objs: []sysObj{soA, soB}}, {Kind: "destroy", FailMut: []int{0}, FailCode: 4091,
+			Del: map[string]string{idKey(soB.ID): "replaced"}, Opts: sysOpts{Timeout: true}}, {Kind: "destroy", Opts: sysOpts{Timeout: true}}}},
+		{Pre: pre, Runs: []sysRun{{Kind: "apply", Objs: []sysObj{soA, soB}}, {Kind: "apply", Objs: []sysObj{}, Del: map[string]string{idKey(soB.ID): "replaced", idKey(soA.ID): "replaced"}, Opts: sysOpts{Timeout: true}}}},
 		// ids the inventory cannot store
 		{Pre: pre, Runs: []sysRun{{Kind: "apply", Objs: []sysObj{soA, {ID: jid{"ns1", "a_b", "", "ConfigMap"}}}}, {Kind: "apply", Objs: []sysObj{soA}},
 			{Kind: "apply", Objs: []sysObj{soA, {ID: jid{"", "x__y", "rbac.authorization.k8s.io", "ClusterRole"}}}, Opts: sysOpts{StatusAll: true}}, {Kind: "destroy"}}},
